@@ -81,8 +81,24 @@ def scratch_base():
   return base
 
 
+def sweep_stale_scratch(hours=6.0):
+  """Scratch directories of a harness that was killed (vp stop, timeout of the caller) are
+  never removed by their owner; drop those older than any run can last."""
+  base = scratch_base()
+  now = time.time()
+  for name in os.listdir(base):
+    if name.startswith("vf-"):
+      d = os.path.join(base, name)
+      try:
+        if now - os.path.getmtime(d) > hours * 3600:
+          shutil.rmtree(d, ignore_errors=True)
+      except OSError:
+        pass
+
+
 def run_workers(pid, tier, seed, nworkers, here, timeout, extra=None,
                 keras3=False):
+  sweep_stale_scratch()
   outdir = tempfile.mkdtemp(prefix="vf-%s-" % pid, dir=scratch_base())
   procs = []
   env = worker_env(here, keras3=keras3)
